@@ -159,6 +159,20 @@ class AppendData(object):
         return value
 
 
+class SetData(object):
+    """user element: mutates dictionary data in place."""
+
+    def __init__(self, key, v):
+        self._key, self._v = key, v
+
+    def __call__(self, value):
+        import lena.flow
+        data = lena.flow.get_data(value)
+        if isinstance(data, dict):
+            data[self._key] = self._v
+        return value
+
+
 class KeepLast(object):
     """user fill/compute element that yields the last filled value itself."""
 
@@ -253,6 +267,8 @@ def build_step(s, in_fill):
         return Tag(s["name"])
     if k == "app":
         return AppendData(s["v"])
+    if k == "setd":
+        return SetData(s["key"], s["v"])
     if k == "count":
         c = lena.flow.Count(s["name"])
         return lena.core.FillInto(c) if in_fill else c
@@ -280,6 +296,8 @@ def build_acc(a):
             seq = None
         elif sq == "sum":
             seq = lena.math.Sum()
+        elif sq == "dsum":
+            seq = lena.math.DSum()
         else:
             seq = lena.core.Split([lena.math.Sum(), lena.flow.Count(sq["count"])])
         return lena.math.Mean(seq, pass_on_empty=a["poe"])
@@ -287,43 +305,67 @@ def build_acc(a):
         return lena.math.VarianceMeanCount(corrected=a["corrected"], pass_on_empty=a["poe"])
     if k == "vectorize":
         return lena.math.Vectorize(lena.math.Sum(), dim=a["dim"])
+    if k == "vec_list":
+        return lena.math.Vectorize([lena.math.Sum(), lena.math.Mean()])
     if k == "histogram":
         return lena.structures.Histogram([0, 1, 2, 3, 4])
     if k == "sib":
         return lena.structures.SplitIntoBins(lena.math.Sum(), lena.variables.Variable(a["var"], lambda x: x),
                                              list(range(a["lo"], a["hi"] + 1)))
+    if k == "graph":
+        return lena.structures.Graph()
     if k == "store":
         return lena.flow.StoreFilled(yield_as_a_group=False)
+    if k == "store_group":
+        return lena.flow.StoreFilled(yield_as_a_group=True)
+    if k == "groupby":
+        return lena.flow.GroupBy(a["key"])
     if k == "keeplast":
         return KeepLast()
     if k == "reqsum":
         return ReqSum()
     if k == "reqstore":
         return ReqStore()
-    # accumulators checked by the oracle only (no model)
-    if k == "graph":
-        return lena.structures.Graph()
+    # composites
     if k == "zip":
-        return lena.flow.Zip([lena.math.Sum(), lena.flow.Count(a.get("name", "n"))])
-    if k == "zip_same":
-        return lena.flow.Zip([lena.math.Sum(), lena.math.Sum()])
+        return lena.flow.Zip([build_acc(x) for x in a["subs"]])
     if k == "split_fc":
-        return lena.core.Split([lena.math.Sum(), lena.flow.Count(a.get("name", "n")), lena.math.Mean()])
-    if k == "fc_seq":
-        return lena.core.FillComputeSeq(lena.variables.Variable("v", _getter), lena.math.Sum())
+        return lena.core.Split([build_acc(x) for x in a["subs"]])
+    if k == "fcseq":
+        return lena.core.FillComputeSeq(*([build_step(x, True) for x in a["steps"]] + [build_acc(a["term"])]))
     if k == "fillcompute":
-        return lena.core.FillCompute(lena.math.Mean())
-    if k == "mean_dsum":
-        return lena.math.Mean(lena.math.DSum())
-    if k == "vec_list":
-        return lena.math.Vectorize([lena.math.Sum(), lena.math.Mean()])
-    if k == "nphist":
-        return lena.structures.NumpyHistogram(bins=3, range=(0, 6), reset=a.get("reset", False))
+        return lena.core.FillCompute(build_acc(a["of"]))
     raise ValueError(k)
 
 
-ORACLE_ONLY = ("graph", "zip", "zip_same", "split_fc", "fc_seq", "fillcompute", "mean_dsum", "vec_list", "nphist")
-ALIASING_BY_SPEC = ("store", "keeplast", "reqstore")
+ORACLE_ONLY = ()
+ALIASING_BY_SPEC = ("store", "keeplast", "reqstore", "store_group", "groupby")
+GROUP_KINDS = ("store_group", "groupby")
+HAS_RESET = ("sum", "dsum", "count", "vmc", "vectorize", "vec_list", "histogram", "store", "store_group", "groupby",
+             "graph")
+
+
+class GroupSnap(object):
+    """a yielded group (a list of flow values) with its members at the moment of the yield"""
+
+    def __init__(self, obj):
+        self.obj, self.members = obj, list(obj)
+
+
+def acc_kind(a):
+    """the kind whose data rendering / oracle class applies"""
+    if a["a"] == "fillcompute":
+        return acc_kind(a["of"])
+    if a["a"] == "fcseq":
+        return acc_kind(a["term"])
+    return a["a"]
+
+
+def model_acc(a):
+    """the accumulator as the model driver sees it (an adapter that only forwards is its element)"""
+    if a["a"] == "fillcompute":
+        return model_acc(a["of"])
+    return a
 
 
 def build_branch(i, sp, log):
@@ -360,6 +402,8 @@ def build_item(heap, it):
 
 def split_value(v):
     """(data, context | None) as lena sees it"""
+    if isinstance(v, GroupSnap):
+        return v.obj, None
     if isinstance(v, tuple) and len(v) == 2 and isinstance(v[1], dict):
         return v[0], v[1]
     return v, None
@@ -414,6 +458,9 @@ class Renderer(object):
         return enc(d)
 
     def item(self, v):
+        if isinstance(v, GroupSnap):
+            t = self.tok(v.obj)
+            return {"group": t, "items": [self.item(m) for m in v.members]}
         d, c = split_value(v)
         dj = self.data(d)
         if c is None:
@@ -426,6 +473,8 @@ def nested_sharing(values):
     object themselves (the model assumes there are none)"""
     roots = {}
     for v in values:
+        if isinstance(v, GroupSnap):
+            continue
         d, c = split_value(v)
         for r in (d, c):
             if isinstance(r, (dict, list)):
@@ -563,20 +612,30 @@ def run_split(case):
 # accumulator histories
 
 def _acc_data(kind):
+    def elem(d):
+        if isinstance(d, bool):
+            return int(d)
+        if isinstance(d, (int, float, str, Decimal)):
+            return enc(d)
+        n = type(d).__name__
+        if n == "histogram":
+            return "hist"
+        if n == "Graph":
+            return "graph"
+        if n == "variance_mean_count":
+            return "vmc"
+        return {"obj": n}
+
     def f(d):
-        if kind in ("sum", "count", "reqsum", "store", "keeplast", "reqstore"):
-            return enc(d)
-        if kind == "dsum":
-            return enc(d)
-        if kind == "mean":
-            return enc(d)
         if kind == "vmc":
             return "vmc"
-        if kind == "vectorize":
+        if kind in ("vectorize", "vec_list"):
             return "vec"
         if kind in ("histogram", "sib"):
             return "hist"
-        return {"obj": type(d).__name__}
+        if kind == "zip" and isinstance(d, tuple):
+            return {"t": [elem(x) for x in d]}
+        return elem(d)
     return f
 
 
@@ -594,6 +653,8 @@ def _deep_mutate(ctx, k=0):
 
 def _plain(v):
     """comparable plain rendering of a yielded value (data of structures is opaque)"""
+    if isinstance(v, GroupSnap):
+        return ["group", [_plain(m) for m in v.members]]
     d, c = split_value(v)
     if isinstance(d, (int, float, str, Decimal)) or d is None:
         dd = repr(d)
@@ -610,10 +671,14 @@ def _exec_history(case, aggressive):
     False: the twin — same operations except that nothing yielded is ever mutated."""
     import lena.core
     acc = build_acc(case["acc"])
+    kind = acc_kind(case["acc"])
     heap = build_heap(case)
     filled, outs, evs = [], [], []
     problems = []
     for op in case["hist"]:
+        if "reset" in op:
+            acc.reset()
+            continue
         if "f" in op or "rf" in op:
             if "f" in op:
                 v = build_item(heap, op["f"])
@@ -637,6 +702,11 @@ def _exec_history(case, aggressive):
                 err = None
             except Exception as e:
                 ys, err = [], exc_name(e)
+            if kind in GROUP_KINDS:
+                for y in ys:
+                    if not all(any(m is f for f in filled) for m in y):
+                        problems.append("a yielded group contains a value that was not filled")
+                ys = [GroupSnap(y) for y in ys]
             evs.append({"n": len(ys), "err": err})
             # identity part of the oracle: objects of the new contexts vs everything filled / yielded before
             if aggressive is None:
@@ -689,7 +759,7 @@ def _exec_history(case, aggressive):
 
 
 def run_acc(case):
-    kind = case["acc"]["a"]
+    kind = acc_kind(case["acc"])
     try:
         acc, filled, outs, evs, problems = _exec_history(case, None)
     except Exception as e:
@@ -729,7 +799,7 @@ def model_requests(case):
         return [{k: case[k] for k in ("op", "mode", "branches", "bufsize", "copy_buf", "heap", "flow")}]
     if case["acc"]["a"] in ORACLE_ONLY:
         return []
-    return [{k: case[k] for k in ("op", "acc", "heap", "hist")}]
+    return [{"op": "acc", "acc": model_acc(case["acc"]), "heap": case["heap"], "hist": case["hist"]}]
 
 
 def _norm_data(kind, dj, case):
